@@ -196,9 +196,16 @@ func allocObs(a *boundsAn, ins ssa.Instruction) []boundsOb {
 
 // rangeRule runs the engine with an extra-obligation generator over fns.
 func rangeRule(c *Ctx, rule string, fns []*ssa.Function, gen func(a *boundsAn, ins ssa.Instruction) []boundsOb, msg string, floorWhat string, floorN int) {
+	rangeRuleAssuming(c, rule, fns, gen, nil, msg, floorWhat, floorN)
+}
+
+// rangeRuleAssuming: as rangeRule, with facts the caller has established at every call site of the
+// analysed functions.
+func rangeRuleAssuming(c *Ctx, rule string, fns []*ssa.Function, gen func(a *boundsAn, ins ssa.Instruction) []boundsOb, assume func(a *boundsAn), msg string, floorWhat string, floorN int) {
 	P := c.P
 	eng := newBoundsEngine(P)
 	eng.extra = gen
+	eng.assume = assume
 	sort.Slice(fns, func(i, j int) bool { return FuncName(fns[i]) < FuncName(fns[j]) })
 	total := 0
 	for _, f := range fns {
